@@ -794,4 +794,305 @@ theorem alltoallvNative_spec (ty : RefType) (hty : ty.nativeOk = true) (maxTag :
       rfl
   rw [hloop, allSome_map_some]
 
+/-! ### the bucket pack of `ref_mpi_blindsend` -/
+
+theorem flatMap_congr' {β γ : Type} (l : List β) (g g' : β → List γ) (h : ∀ x ∈ l, g x = g' x) :
+    l.flatMap g = l.flatMap g' := by
+  induction l with
+  | nil => rfl
+  | cons x xs ih =>
+    simp only [List.flatMap_cons, h x List.mem_cons_self, ih (fun y hy => h y (List.mem_cons_of_mem _ hy))]
+
+theorem range_split (np p : Nat) (hp : p < np) :
+    List.range np = List.range p ++ p :: List.range' (p + 1) (np - p - 1) := by
+  have h1 : List.range np = List.range' 0 p ++ List.range' (0 + 1 * p) (np - p) := by
+    rw [List.range'_append, List.range_eq_range']
+    congr 1; omega
+  have h2 : List.range' (0 + 1 * p) (np - p) = p :: List.range' (p + 1) (np - p - 1) := by
+    have : np - p = (np - p - 1) + 1 := by omega
+    rw [this, List.range'_succ]
+    simp
+  rw [h1, h2, List.range_eq_range']
+
+/-- segment `q` of the packed buffer: `f q` already stored, `h q` not yet written -/
+def segData (np : Nat) (f h : Nat → List α) : List α := (List.range np).flatMap fun q => f q ++ h q
+
+def upd {β : Type} (f : Nat → β) (p : Nat) (v : β) : Nat → β := fun q => if q = p then v else f q
+
+theorem segData_split (np p : Nat) (hp : p < np) (f h : Nat → List α) :
+    segData np f h = (List.range p).flatMap (fun q => f q ++ h q) ++ (f p ++ h p)
+      ++ (List.range' (p + 1) (np - p - 1)).flatMap (fun q => f q ++ h q) := by
+  unfold segData
+  rw [range_split np p hp, List.flatMap_append, List.flatMap_cons]
+  simp only [List.append_assoc]
+
+theorem segData_write (np p ldim : Nat) (hp : p < np) (f h : Nat → List α) (item : List α)
+    (hit : item.length = ldim) (hh : ldim ≤ (h p).length) (off : Nat)
+    (hoff : off = ((List.range p).flatMap (fun q => f q ++ h q)).length + (f p).length) :
+    writeAt (segData np f h) off item
+      = segData np (upd f p (f p ++ item)) (upd h p ((h p).drop ldim)) := by
+  rw [segData_split np p hp f h, segData_split np p hp (upd f p (f p ++ item)) (upd h p ((h p).drop ldim))]
+  have hA : (List.range p).flatMap (fun q => upd f p (f p ++ item) q ++ upd h p ((h p).drop ldim) q)
+      = (List.range p).flatMap (fun q => f q ++ h q) := by
+    apply flatMap_congr'
+    intro q hq
+    have : q ≠ p := by have := List.mem_range.mp hq; omega
+    simp [upd, this]
+  have hB : (List.range' (p + 1) (np - p - 1)).flatMap
+        (fun q => upd f p (f p ++ item) q ++ upd h p ((h p).drop ldim) q)
+      = (List.range' (p + 1) (np - p - 1)).flatMap (fun q => f q ++ h q) := by
+    apply flatMap_congr'
+    intro q hq
+    have : q ≠ p := by have := (List.mem_range'_1.mp hq).1; omega
+    simp [upd, this]
+  rw [hA, hB]
+  simp only [upd, if_true]
+  have hsplit : h p = (h p).take ldim ++ (h p).drop ldim := (List.take_append_drop _ _).symm
+  have htl : ((h p).take ldim).length = item.length := by rw [List.length_take]; omega
+  -- regroup so that the overwritten part is in the middle
+  have e1 : (List.range p).flatMap (fun q => f q ++ h q) ++ (f p ++ h p)
+        ++ (List.range' (p + 1) (np - p - 1)).flatMap (fun q => f q ++ h q)
+      = ((List.range p).flatMap (fun q => f q ++ h q) ++ f p) ++ (h p).take ldim
+        ++ ((h p).drop ldim ++ (List.range' (p + 1) (np - p - 1)).flatMap (fun q => f q ++ h q)) := by
+    conv => lhs; rw [hsplit]
+    simp only [List.append_assoc]
+  rw [e1, writeAt_mid _ _ _ _ off (by rw [hoff, List.length_append]) htl]
+  simp only [List.append_assoc]
+
+theorem prefLen_congr {β : Type} (k : Nat) (g g' : Nat → List β) (h : ∀ q, q < k → (g q).length = (g' q).length) :
+    ((List.range k).flatMap g).length = ((List.range k).flatMap g').length := by
+  rw [List.length_flatMap, List.length_flatMap]
+  congr 1
+  apply List.map_congr_left
+  intro q hq
+  exact h q (List.mem_range.mp hq)
+
+theorem incrAt_getD (a : List Int) (p q : Nat) (hp : p < a.length) :
+    (incrAt a p).getD q 0 = if q = p then a.getD p 0 + 1 else a.getD q 0 := by
+  unfold incrAt
+  rw [List.getD_eq_getElem?_getD, List.getElem?_set]
+  by_cases h : p = q
+  · subst h; simp [hp]
+  · have : ¬ q = p := fun e => h e.symm
+    simp [h, this, List.getD_eq_getElem?_getD]
+
+theorem length_incrAt (a : List Int) (p : Nat) : (incrAt a p).length = a.length := by
+  simp [incrAt]
+
+/-- the items addressed to `q`, in the order they were given -/
+def bucket (q : Nat) (pairs : List (Nat × List α)) : List (List α) :=
+  (pairs.filter fun x => x.1 == q).map (·.2)
+
+theorem bucket_cons_self (p : Nat) (item : List α) (rest : List (Nat × List α)) :
+    bucket p ((p, item) :: rest) = item :: bucket p rest := by
+  simp [bucket]
+
+theorem bucket_cons_ne (p q : Nat) (hne : q ≠ p) (item : List α) (rest : List (Nat × List α)) :
+    bucket q ((p, item) :: rest) = bucket q rest := by
+  have : (p == q) = false := by simp only [beq_eq_false_iff_ne, ne_eq]; omega
+  simp [bucket, this]
+
+structure PackInv (ldim np : Nat) (f h : Nat → List α) (aNext : List Int) (todo : List (Nat × List α)) : Prop where
+  len : aNext.length = np
+  nonneg : ∀ p, p < np → 0 ≤ aNext.getD p 0
+  next : ∀ p, p < np →
+    ldim * (aNext.getD p 0).toNat = ((List.range p).flatMap (fun q => f q ++ h q)).length + (f p).length
+  hole : ∀ p, p < np → (h p).length = ldim * (bucket p todo).length
+
+theorem pack_spec (ldim np : Nat) (pairs : List (Nat × List α)) (hd : ∀ x ∈ pairs, x.1 < np)
+    (hi : ∀ x ∈ pairs, x.2.length = ldim) (f h : Nat → List α) (aNext : List Int)
+    (inv : PackInv ldim np f h aNext pairs) :
+    pack ldim (pairs.map fun x => (x.1 : Int)) (pairs.map (·.2)).flatten (segData np f h) aNext
+      = (List.range np).flatMap fun q => f q ++ (bucket q pairs).flatten := by
+  induction pairs generalizing f h aNext with
+  | nil =>
+    simp only [List.map_nil, pack, segData]
+    apply flatMap_congr'
+    intro q hq
+    have := inv.hole q (List.mem_range.mp hq)
+    simp only [bucket, List.filter_nil, List.map_nil, List.length_nil, Nat.mul_zero] at this
+    simp [List.eq_nil_of_length_eq_zero this, bucket]
+  | cons x rest ih =>
+    obtain ⟨p, item⟩ := x
+    have hp : p < np := hd (p, item) List.mem_cons_self
+    have hit : item.length = ldim := hi (p, item) List.mem_cons_self
+    have hd' : ∀ x ∈ rest, x.1 < np := fun x hx => hd x (List.mem_cons_of_mem _ hx)
+    have hi' : ∀ x ∈ rest, x.2.length = ldim := fun x hx => hi x (List.mem_cons_of_mem _ hx)
+    have hhole := inv.hole p hp
+    rw [bucket_cons_self, List.length_cons, Nat.mul_succ] at hhole
+    have hh : ldim ≤ (h p).length := by omega
+    simp only [List.map_cons, List.flatten_cons, pack, Int.toNat_natCast]
+    rw [List.take_left' hit, List.drop_left' hit]
+    rw [segData_write np p ldim hp f h item hit hh _ (inv.next p hp)]
+    -- the invariant after the step
+    have hseg : ∀ q, (upd f p (f p ++ item) q ++ upd h p ((h p).drop ldim) q).length = (f q ++ h q).length := by
+      intro q
+      by_cases hq : q = p
+      · subst hq
+        simp only [upd, if_true, List.length_append, List.length_drop]
+        omega
+      · simp [upd, hq]
+    have inv' : PackInv ldim np (upd f p (f p ++ item)) (upd h p ((h p).drop ldim)) (incrAt aNext p) rest := by
+      refine ⟨by rw [length_incrAt]; exact inv.len, ?_, ?_, ?_⟩
+      · intro q hq
+        rw [incrAt_getD aNext p q (by rw [inv.len]; exact hp)]
+        have h1 := inv.nonneg p hp
+        have h2 := inv.nonneg q hq
+        split <;> omega
+      · intro q hq
+        rw [incrAt_getD aNext p q (by rw [inv.len]; exact hp)]
+        rw [prefLen_congr q _ (fun q => f q ++ h q) (fun q' _ => hseg q')]
+        by_cases hqp : q = p
+        · subst hqp
+          have h0 := inv.nonneg q hq
+          have hn := inv.next q hq
+          have e : (aNext.getD q 0 + 1).toNat = (aNext.getD q 0).toNat + 1 := by omega
+          simp only [if_true, upd, e, Nat.mul_succ, List.length_append]
+          omega
+        · have hn := inv.next q hq
+          simp only [hqp, if_false, upd]
+          exact hn
+      · intro q hq
+        by_cases hqp : q = p
+        · subst hqp
+          simp only [upd, if_true, List.length_drop]
+          omega
+        · have := inv.hole q hq
+          rw [bucket_cons_ne p q hqp] at this
+          simp only [upd, hqp, if_false]
+          exact this
+    rw [ih hd' hi' _ _ _ inv']
+    apply flatMap_congr'
+    intro q hq
+    by_cases hqp : q = p
+    · subst hqp
+      simp [upd, bucket_cons_self]
+    · simp [upd, hqp, bucket_cons_ne p q hqp]
+
+/-! ### `a_size`, `a_next` and the initial state of the pack -/
+
+/-- `Σ_{j<q} cs j` -/
+def prefSum (cs : Nat → Nat) (q : Nat) : Nat := ((List.range q).map cs).sum
+
+theorem prefSum_succ (cs : Nat → Nat) (q : Nat) : prefSum cs (q + 1) = prefSum cs q + cs q := by
+  simp [prefSum, List.range_succ, List.sum_append]
+
+theorem prefSum_mono (cs : Nat → Nat) (q k : Nat) (h : q ≤ k) : prefSum cs q ≤ prefSum cs k := by
+  induction k with
+  | zero => have : q = 0 := by omega
+            subst this; exact Nat.le_refl _
+  | succ k ih =>
+    by_cases hq : q = k + 1
+    · subst hq; exact Nat.le_refl _
+    · have := ih (by omega)
+      rw [prefSum_succ]; omega
+
+/-- cutting a list into consecutive chunks and gluing them back -/
+theorem chunks_flatMap (cs : Nat → Nat) (init : List α) (k : Nat) :
+    (List.range k).flatMap (fun q => slice init (prefSum cs q) (cs q)) = init.take (prefSum cs k) := by
+  induction k with
+  | zero => simp [prefSum]
+  | succ k ih =>
+    rw [List.range_succ, List.flatMap_append, List.flatMap_singleton, ih, prefSum_succ, List.take_add]
+    rfl
+
+theorem foldl_incrAt_length (procs : List Int) (a : List Int) :
+    (procs.foldl (fun a p => incrAt a p.toNat) a).length = a.length := by
+  induction procs generalizing a with
+  | nil => rfl
+  | cons p ps ih => simp only [List.foldl_cons, ih, length_incrAt]
+
+theorem foldl_incrAt_getD (pairs : List (Nat × List α)) (a : List Int) (hd : ∀ x ∈ pairs, x.1 < a.length)
+    (q : Nat) :
+    ((pairs.map fun x => (x.1 : Int)).foldl (fun a p => incrAt a p.toNat) a).getD q 0
+      = a.getD q 0 + ((bucket q pairs).length : Int) := by
+  induction pairs generalizing a with
+  | nil => simp [bucket]
+  | cons x rest ih =>
+    obtain ⟨p, item⟩ := x
+    have hp : p < a.length := hd (p, item) List.mem_cons_self
+    simp only [List.map_cons, List.foldl_cons, Int.toNat_natCast]
+    rw [ih (incrAt a p) (fun x hx => by rw [length_incrAt]; exact hd x (List.mem_cons_of_mem _ hx)),
+      incrAt_getD a p q hp]
+    by_cases hq : q = p
+    · subst hq
+      simp only [if_true, bucket_cons_self, List.length_cons]
+      push_cast; omega
+    · simp only [hq, if_false, bucket_cons_ne p q hq]
+
+theorem countDest_eq (np : Nat) (pairs : List (Nat × List α)) (hd : ∀ x ∈ pairs, x.1 < np) :
+    countDest np (pairs.map fun x => (x.1 : Int))
+      = (List.range np).map fun q => ((bucket q pairs).length : Int) := by
+  apply List.ext_getElem
+  · simp [countDest, foldl_incrAt_length]
+  · intro q h1 h2
+    have hq : q < np := by simpa using h2
+    have := foldl_incrAt_getD pairs (List.replicate np 0) (by simpa using hd) q
+    simp only [countDest] at h1 ⊢
+    rw [List.getD_eq_getElem?_getD, List.getElem?_eq_getElem h1] at this
+    simp only [Option.getD_some] at this
+    rw [this]
+    simp [List.getD_eq_getElem?_getD, hq]
+
+theorem sum_range_cast (cs : Nat → Nat) (q : Nat) :
+    ((List.range q).map fun j => (cs j : Int)).sum = (prefSum cs q : Int) := by
+  induction q with
+  | zero => simp [prefSum]
+  | succ q ih =>
+    rw [prefSum_succ, List.range_succ, List.map_append, List.sum_append, ih]
+    simp
+
+theorem prefSum_mul (ldim : Nat) (cs : Nat → Nat) (q : Nat) :
+    prefSum (fun j => ldim * cs j) q = ldim * prefSum cs q := by
+  induction q with
+  | zero => simp [prefSum]
+  | succ q ih => rw [prefSum_succ, prefSum_succ, ih, Nat.mul_add]
+
+/-- the bucket pack of `ref_mpi_blindsend`, from the `a_next` prefix sums and ANY initial contents of `a_data`:
+    bucket `q` holds the items addressed to `q` in their original order; every slot is overwritten -/
+theorem pack_init (ldim np : Nat) (pairs : List (Nat × List α)) (hd : ∀ x ∈ pairs, x.1 < np)
+    (hi : ∀ x ∈ pairs, x.2.length = ldim) (init : List α)
+    (hinit : init.length = ldim * prefSum (fun q => (bucket q pairs).length) np) :
+    pack ldim (pairs.map fun x => (x.1 : Int)) (pairs.map (·.2)).flatten init
+        (displs (countDest np (pairs.map fun x => (x.1 : Int))))
+      = (List.range np).flatMap fun q => (bucket q pairs).flatten := by
+  let c : Nat → Nat := fun q => (bucket q pairs).length
+  let cs : Nat → Nat := fun q => ldim * c q
+  let h : Nat → List α := fun q => slice init (prefSum cs q) (cs q)
+  have hlen : init.length = prefSum cs np := by rw [hinit, prefSum_mul]
+  have hseg : segData np (fun _ => []) h = init := by
+    simp only [segData, List.nil_append]
+    rw [chunks_flatMap cs init np, ← hlen, List.take_length]
+  have hnext : ∀ p, p < np →
+      (displs (countDest np (pairs.map fun x => (x.1 : Int)))).getD p 0 = (prefSum c p : Int) := by
+    intro p hp
+    rw [countDest_eq np pairs hd]
+    unfold displs
+    rw [displsFrom_getD 0 _ p (by simpa using hp), ← List.map_take, List.take_range, Nat.min_eq_left (by omega),
+      sum_range_cast c p]
+    omega
+  have inv : PackInv ldim np (fun _ => []) h (displs (countDest np (pairs.map fun x => (x.1 : Int)))) pairs := by
+    refine ⟨?_, ?_, ?_, ?_⟩
+    · simp [displs, length_displsFrom, countDest, foldl_incrAt_length]
+    · intro p hp; rw [hnext p hp]; omega
+    · intro p hp
+      rw [hnext p hp]
+      simp only [List.nil_append, List.length_nil, Nat.add_zero, Int.toNat_natCast]
+      rw [chunks_flatMap cs init p, List.length_take]
+      have e : ldim * prefSum c p = prefSum cs p := (prefSum_mul ldim c p).symm
+      rw [e]
+      have := prefSum_mono cs p np (by omega)
+      omega
+    · intro p hp
+      show (slice init (prefSum cs p) (cs p)).length = ldim * c p
+      unfold slice
+      rw [List.length_take, List.length_drop]
+      have h1 := prefSum_mono cs (p + 1) np (by omega)
+      rw [prefSum_succ] at h1
+      show min (cs p) _ = cs p
+      omega
+  have := pack_spec ldim np pairs hd hi (fun _ => []) h _ inv
+  rw [hseg] at this
+  simpa using this
+
 end Refine.Lemmas.Comm
